@@ -58,7 +58,9 @@ def run_case(case):
     rng = random.Random(case['seed'])
     seedkey = rng.random() < 0.4
     windows = (rng.choice([1, 2, 5, 255]), rng.choice([1, 3, 255]))
-    DW = D.Dm14World(case['seed'], seedkey=seedkey, windows=windows, latency=rng.choice([(0.0001, 0.005), (0.0001, 0.0005)]))
+    # addresses: the usual ones, or boundary values (0 is falsy, 253 the last claimable one)
+    ca_, sa_ = rng.choice([(D.CLI, D.SRV), (D.CLI, D.SRV), (0x00, D.SRV), (D.CLI, 0x00), (253, 1), (rng.randrange(2, 120), rng.randrange(128, 253))])
+    DW = D.Dm14World(case['seed'], seedkey=seedkey, windows=windows, latency=rng.choice([(0.0001, 0.005), (0.0001, 0.0005)]), cli_addr=ca_, srv_addr=sa_)
     viol = M.Violations()
     tag = dict(layer='dm14')
     if case['kind'] == 'sweep':
@@ -105,7 +107,7 @@ def run_case(case):
             viol.add('proceed_count', '%s: proceed callback ran %d times' % (what, len(pcs)), **wtag)
         else:
             p = pcs[0]
-            want = dict(command=C.DM14_READ if op['kind'] == 'read' else C.DM14_WRITE, address=op['pointer'], pointer_type=op['direct'], object_count=op['count'], sa=D.CLI)
+            want = dict(command=C.DM14_READ if op['kind'] == 'read' else C.DM14_WRITE, address=op['pointer'], pointer_type=op['direct'], object_count=op['count'], sa=DW.cli_addr)
             got = {a: p[a] for a in want}
             if got != want:
                 bad = [a for a in want if got[a] != want[a]]
